@@ -119,6 +119,10 @@ func (c *Ctx) condDesc(iff *ssa.If, succ int, loops []*ir.Loop) string {
 	if call, ok := iff.Cond.(*ssa.Call); ok {
 		n := c.calleeName(call)
 		var args []string
+		if call.Call.IsInvoke() {
+			n = call.Call.Method.Name()
+			args = append(args, c.valueDesc(call.Call.Value))
+		}
 		for _, a := range call.Call.Args {
 			args = append(args, c.valueDesc(a))
 		}
